@@ -50,15 +50,16 @@ Definition sadd (k : str) (l : list str) : list str := if smem k l then l else l
 Definition srem (k : str) (l : list str) : list str := filter (fun x => negb (str_eqb k x)) l.
 
 (* ---------- rules ---------- *)
-Inductive vkind := VNum | VStr | VStar | VPh | VRe | VNull | VStrs (l : list str).
+Inductive vkind := VNum | VStr | VStar | VPh | VRe | VNull | VStrs (l : list str) | VCt.
    (* number | plain string | string with trailing wildcard (also `|startswith`) | unresolved placeholder
       (di_text = its name) | regular expression | no value at all | list of plain strings (a placeholder
-      after replacement; [] renders as null, one value as that string, more as an OR) *)
+      after replacement; [] renders as null, one value as that string, more as an OR) | *text* (`|contains`) *)
 Record ditem := { di_field : str; di_text : str; di_kind : vkind }.
 Inductive ptree := PId (n : str) | PNot (t : ptree) | PAnd (l : list ptree) | POr (l : list ptree).
 Record rule := {
   r_bad : option N;                    (* Some tag: loading this document raises that Sigma error *)
-  r_mods : list N;                     (* modifier classes whose type hint is resolved while loading *)
+  r_mods : list (N * N);               (* modifier applications while loading: (modifier class, type of the value:
+                                          0 string, 1 number), each type-checked against the class's modify() hint *)
   r_product : N;                       (* 0 none, 1 windows, 2 linux *)
   r_dets : list (str * list ditem);    (* detections: name -> AND-linked map of field: value *)
   r_conds : list str;                  (* condition strings *)
@@ -236,6 +237,7 @@ Record env := {
   e_bk : N -> list item;               (* class-level backend pipeline *)
   e_fmt : N -> N -> list item;         (* class-level output format pipelines *)
   e_user : N -> list item;             (* user pipeline objects (one definition each) *)
+  e_accepts : N -> N -> bool;          (* modify() of modifier class m is annotated to take values of type t *)
   e_qexpr : N -> option str;           (* class query_expression "idx={state[k]} | {query}": Some k; default "{query}": None *)
   e_sdef : N -> list (str * str);      (* class state_defaults (a class-level dict; read only) *)
   e_bkvars : N -> vars;                (* `vars` of these pipeline definitions *)
@@ -255,12 +257,14 @@ Definition pipe_pairs (E : env) (cls : N) (user : option N) (fmt : N) : list (ii
   tagp (SFmt cls fmt) (e_fmt E cls fmt).
 
 (* ---------- the world ---------- *)
-Definition tpls := (N * N * N)%type.  (* class attributes eq_expression, startswith_expression, re_expression: template ids *)
-Definition t_eq (t : tpls) : N := fst (fst t).
-Definition t_sw (t : tpls) : N := snd (fst t).
-Definition t_re (t : tpls) : N := snd t.
-Definition tpl0 : tpls := (0, 2, 4).
-Definition tpl_neg : tpls := (1, 3, 5).  (* not_eq_expression, not_startswith_expression, not_re_expression = None *)
+Definition tpls := (N * N * N * N)%type.  (* class attributes eq_expression, startswith_expression, re_expression,
+                                             contains_expression: template ids *)
+Definition t_eq (t : tpls) : N := fst (fst (fst t)).
+Definition t_sw (t : tpls) : N := snd (fst (fst t)).
+Definition t_re (t : tpls) : N := snd (fst t).
+Definition t_ct (t : tpls) : N := snd t.
+Definition tpl0 : tpls := (0, 2, 4, 6).
+Definition tpl_neg : tpls := (1, 3, 5, 7).  (* not_eq_, not_startswith_, not_re_expression = None, not_contains_expression *)
 
 Record backend := { b_cls : N; b_user : option N; b_collect : bool; b_opts : list (str * str);
                     b_last : option (nat * N) }.
@@ -270,7 +274,8 @@ Record backend := { b_cls : N; b_user : option N; b_collect : bool; b_opts : lis
 Record world := {
   w_cache : list (str * ptree);        (* lru_cache of _parse_condition_string *)
   w_hits : N; w_miss : N;
-  w_hints : list N;                    (* SigmaModifier._type_hint_cache keys *)
+  w_hints : list (N * N);              (* SigmaModifier._type_hint_cache: modifier class -> the class whose modify()
+                                          annotation was stored for it *)
   w_tpl : N -> tpls;                   (* backend class attributes *)
   w_owner : iid -> option nat;         (* item._pipeline (None: a pipeline that is never applied) *)
   w_ps : nat -> pstate;                (* per-rule fields of each last_processing_pipeline object *)
@@ -293,7 +298,7 @@ Definition set_tplw (w : world) (tp : N -> tpls) : world :=
 Definition set_bks (w : world) (l : list backend) : world :=
   {| w_cache := w_cache w; w_hits := w_hits w; w_miss := w_miss w; w_hints := w_hints w;
      w_tpl := w_tpl w; w_owner := w_owner w; w_ps := w_ps w; w_vc := w_vc w; w_pvars := w_pvars w; w_next := w_next w; w_bks := l |}.
-Definition set_hints (w : world) (l : list N) : world :=
+Definition set_hints (w : world) (l : list (N * N)) : world :=
   {| w_cache := w_cache w; w_hits := w_hits w; w_miss := w_miss w; w_hints := l;
      w_tpl := w_tpl w; w_owner := w_owner w; w_ps := w_ps w; w_vc := w_vc w; w_pvars := w_pvars w; w_next := w_next w; w_bks := w_bks w |}.
 Definition set_cache (w : world) (c : list (str * ptree)) (h m : N) : world :=
@@ -433,7 +438,9 @@ Definition tpl_render (id : N) (field value : str) : str :=
   | 0 => field ++ lit "=" ++ value
   | 1 => field ++ lit "!=" ++ value
   | 2 => field ++ lit " startswith " ++ value
-  | _ => field ++ lit " not_startswith " ++ value
+  | 3 => field ++ lit " not_startswith " ++ value
+  | 6 => field ++ lit " contains " ++ value
+  | _ => field ++ lit " not_contains " ++ value
   end.
 Definition quote (s : str) : str := lit """" ++ s ++ lit """".
 Definition leaf_text (tp : tpls) (d : ditem) : outcome str :=
@@ -446,6 +453,7 @@ Definition leaf_text (tp : tpls) (d : ditem) : outcome str :=
            else Crash 1          (* re_expression is None while swapped: NotImplementedError *)
   | VNull => Ok (di_field d ++ lit " is null")
   | VStrs _ => Crash 1           (* unreachable: leaf_of splits value lists *)
+  | VCt => Ok (tpl_render (t_ct tp) (di_field d) (quote (di_text d)))
   end.
 Definition set_tpl (tp : N -> tpls) (cls : N) (v : tpls) : N -> tpls :=
   fun c => if N.eqb c cls then v else tp c.
@@ -588,8 +596,20 @@ Record obs := {                       (* what the caller of the API sees *)
 Record out := { out_obs : obs; out_hits : N; out_miss : N; out_hints : list N; out_tpl_ok : bool;
                 out_vc : list (option (list str)) }.
 
+(* SigmaModifier._get_modify_type_hint: the annotation of the class's own modify() is stored under the exact class the
+   first time it is needed.  (Documents that fail their type check have one modified item here, so nothing after the
+   failing application would have been cached.) *)
 Definition load (w : world) (r : rule) : world :=
-  set_hints w (fold_left (fun h m => if existsb (N.eqb m) h then h else h ++ [m]) (r_mods r) (w_hints w)).
+  set_hints w (fold_left (fun h mt => if existsb (fun e => N.eqb (fst e) (fst mt)) h then h else h ++ [(fst mt, fst mt)])
+                         (r_mods r) (w_hints w)).
+(* type_check of every modifier application against the hint found in the cache, else the class's own *)
+Definition hint_of (w : world) (m : N) : N :=
+  match find (fun e => N.eqb (fst e) m) (w_hints w) with Some e => snd e | None => m end.
+Definition load_check (E : env) (w : world) (r : rule) : option N :=
+  match find (fun mt => negb (e_accepts E (hint_of w (fst mt)) (snd mt))) (r_mods r) with
+  | Some _ => Some E_Type
+  | None => r_bad r
+  end.
 
 Definition snap (w : world) (b : nat) : option pstate :=
   match nth_error (w_bks w) b with
@@ -618,8 +638,8 @@ Fixpoint conv_rules (E : env) (w : world) (b : nat) (fmt : N) (collect : bool) (
 
 Definition classes_probe : list N := [0; 1; 2; 3; 4; 5; 6; 7; 8; 9; 10; 11].
 Definition mk_out (E : env) (w : world) (o : obs) : out :=
-  {| out_obs := o; out_hits := w_hits w; out_miss := w_miss w; out_hints := w_hints w;
-     out_tpl_ok := forallb (fun c => N.eqb (t_eq (w_tpl w c)) 0 && N.eqb (t_sw (w_tpl w c)) 2 && N.eqb (t_re (w_tpl w c)) 4) classes_probe;
+  {| out_obs := o; out_hits := w_hits w; out_miss := w_miss w; out_hints := map fst (w_hints w);
+     out_tpl_ok := forallb (fun c => N.eqb (t_eq (w_tpl w c)) 0 && N.eqb (t_sw (w_tpl w c)) 2 && N.eqb (t_re (w_tpl w c)) 4 && N.eqb (t_ct (w_tpl w c)) 6) classes_probe;
      out_vc := map (w_vc w) (e_files E) |}.
 Definition ok_obs (s : option pstate) : obs := {| o_res := Ok []; o_errs := []; o_snap := s |}.
 
@@ -627,7 +647,7 @@ Definition step (E : env) (w : world) (o : op) : world * out :=
   match o with
   | OLoad r =>
       let w1 := load w r in
-      (w1, mk_out E w1 {| o_res := match r_bad r with Some t => SigmaErr t | None => Ok [] end;
+      (w1, mk_out E w1 {| o_res := match load_check E w r with Some t => SigmaErr t | None => Ok [] end;
                         o_errs := []; o_snap := None |})
   | ONew cls user collect opts =>
       let w1 := set_bks w (w_bks w ++ [{| b_cls := cls; b_user := user; b_collect := collect; b_opts := opts; b_last := None |}]) in
